@@ -12,10 +12,15 @@
 (*  replace_prop(a, atom)  replace_kids(a, kids)  replace_bad(a)           *)
 (*  replace_with(a, b)  replace_with_none(a)                               *)
 (*  duplicate(a, detached)                                                 *)
+(*  tvisit(a, atom, rule)   an ASTTransformVisitor run on a                *)
+(*  texec(a, atom, rule)    an ASTTransformer executed on a                *)
+(*     rule (in the mode slot) says what happens to every leaf-like node   *)
+(*     whose property a is the given atom: keep | bump (replace(a=..)) |   *)
+(*     fresh (a newly built leaf) | drop (None) | boom (the rule raises)   *)
 (***************************************************************************)
 EXTENDS Sequences, Naturals, FiniteSets, TLC, Json
 
-CONSTANTS MaxLen, MaxHandles, GenClasses, MaxKids, Ops, Modes, DupModes, Atoms
+CONSTANTS MaxLen, MaxHandles, GenClasses, MaxKids, Ops, Modes, DupModes, Atoms, TRules
 
 VARIABLES prog, cls      \* the program so far; class of each handle
 vars == <<prog, cls>>
@@ -40,7 +45,7 @@ Step(o) ==
     /\ o.op \in Ops
     /\ prog' = Append(prog, o)
     /\ cls' = IF o.op = "create" THEN Append(cls, o.c)
-              ELSE IF o.op \in {"replace_prop", "replace_kids", "duplicate"} THEN Append(cls, cls[o.a])
+              ELSE IF o.op \in {"replace_prop", "replace_kids", "duplicate", "tvisit", "texec"} THEN Append(cls, cls[o.a])
               ELSE cls
     /\ Len(cls') <= MaxHandles
 
@@ -56,6 +61,8 @@ Next ==
          \/ \E b \in H \ {a} : Step(Op("replace_with", "", a, b, <<>>, 0, ""))
          \/ Step(Op("replace_with_none", "", a, 0, <<>>, 0, ""))
          \/ \E d \in DupModes : Step(Op("duplicate", "", a, 0, <<>>, 0, d))
+         \/ \E r \in TRules, at \in Atoms : Step(Op("tvisit", "", a, 0, <<>>, at, r))
+         \/ \E r \in TRules \ {"boom"}, at \in Atoms : Step(Op("texec", "", a, 0, <<>>, at, r))
 
 Init == prog = <<>> /\ cls = <<>>
 
